@@ -88,9 +88,10 @@ class Server:
         self.dir = tempfile.mkdtemp(prefix=name + "_", dir=_scratch())
         self.port = None
         self.sockpath = None
-        if bind == "tcp":
+        if bind in ("tcp", "localhost"):
             self.port = free_port()
-            self.bind = "127.0.0.1:%d" % self.port
+            # "localhost": the configured address differs textually from what getsockname() reports
+            self.bind = ("127.0.0.1:%d" if bind == "tcp" else "localhost:%d") % self.port
         else:
             self.sockpath = os.path.join(self.dir, "g.sock")
             self.bind = "unix:" + self.sockpath
